@@ -225,6 +225,19 @@ func famC03(g *Gen, o *Out, n int, thorough bool) {
 		if g.pick(2) == 0 {
 			io_.sid = true
 		}
+		if c < 4 {
+			// fixed corpus: the edge block list as CARv1 and as padded CARv2, identity CIDs indexed or not
+			bs = g.EdgeBlocks()
+			r := []cid.Cid{bs[0].C}
+			roots = rootsArg(r)
+			io_.sid = c%2 == 0
+			if c < 2 {
+				ver, dp, arch = 1, 0, writeAll(r, bs, true)
+			} else {
+				ver, dp = 2, 13
+				arch = writeAll(r, bs, false, carv2.UseDataPadding(dp), carv2.StoreIdentityCIDs(true))
+			}
+		}
 		if g.pick(5) == 0 {
 			io_.mcs = uint64(30 + g.pick(40))
 		}
